@@ -60,6 +60,25 @@ def run_trunc_oracle(ctx, ncases):
         ctx.cov["oracle_runs"] = ctx.cov.get("oracle_runs", 0) + 1
         if not nd and np.max(nst) > cap:
             ctx.report("state count %s exceeds the cap %d" % (np.max(nst), cap), {"spec": spec, "cap": cap}, found_input=True, signature={"why": "cap-exceeded"})
+        # no kept wavenumber index may exceed the cap in any component, after EVERY operator (steps of size 2 and 3 jump over it)
+        try:
+            sm, worst, ish2 = epg.StateMatrix(**({} if late else {"max_nstate": cap})), None, 0
+            for o in seq_t:
+                if isinstance(o, epg.probe.Probe):
+                    continue
+                sm = o(sm, inplace=True)
+                ish2 += isinstance(o, epg.S)
+                capped_now = (not late) or ish2 > nshift // 2
+                big = int(sm.nstate) if sm.coords is None else int(np.abs(np.asarray(sm.coords)).max())
+                if capped_now and isinstance(o, epg.S) and big > cap:
+                    worst = big
+                    break
+            if worst is not None:
+                ctx.report("after a capped shift a wavenumber index %d > cap %d is kept" % (worst, cap), {"spec": spec, "cap": cap, "nd": nd, "late_cap": late},
+                           found_input=True, signature={"why": "cap-exceeded", "nd": nd, "site": "stepwise"})
+        except Exception as e:
+            ctx.report("stepwise capped run raised %s: %s" % (type(e).__name__, str(e)[:200]), {"spec": spec, "cap": cap, "nd": nd}, found_input=True,
+                       signature={"raises": type(e).__name__, "nd": nd, "site": "stepwise"})
         for j, Aj in enumerate(acc):
             if np.all(Aj <= 2 * cap + 1):
                 if np.abs(full[:, j] - trunc[:, j]).max() > 1e-12:
@@ -156,6 +175,45 @@ def run_merge_oracle(ctx, ncases):
         if abs(s1 - s2) > 1e-10 or abs(z1 - z2) > 1e-10:
             ctx.report("value reconstructed at position 0 changes under merging: %s vs %s" % (s1, s2), {"shifts": shifts, "angles": angles}, found_input=True,
                        signature={"why": "merge-sum"})
+
+
+def run_kvalue_oracle(ctx, ncases):
+    """gridding happens in PHYSICAL units (coords * kvalue, rad/m): when every physical wavenumber is a multiple of the
+    cell no two distinct wavenumbers share a cell, the merge bound is 0 and the value reconstructed at any position x
+    equals the one of the integer-shift back-end (coordinates = multiples, kvalue = cell), whatever kvalue is"""
+    import epgpy as epg
+    for i in range(ncases):
+        dim = ctx.rng.choice([1, 2, 3])
+        cell = float(ctx.rng.choice([0.5, 1.0, 2.0]))
+        kv = float(ctx.rng.choice([0.25, 4.0, 10.0, 1.0, 8.0]))
+        n = ctx.rng.randint(3, 6)
+        mult = [[ctx.rng.choice([1, 2, -1, 0, 3]) for _ in range(dim)] for _ in range(n)]
+        for m in mult:
+            m[0] = m[0] or 1
+        angles = [(float(ctx.rng.choice([30, 45, 70, 110])), float(ctx.rng.choice([0, 90, 180, 40]))) for _ in range(n)]
+        pos = [[ctx.rng.choice([0.0, 0.3, -0.7, 1.1]) for _ in range(dim)] for _ in range(4)]
+        case = {"dim": dim, "cell": cell, "kvalue": kv, "multiples": mult, "angles": angles, "pos": pos}
+
+        def build(float_mode):
+            seq = []
+            for (a, p), m in zip(angles, mult):
+                sh = epg.S(np.array(m, dtype=float) * cell / kv) if float_mode else epg.S(np.array(m, dtype=int) if dim > 1 else int(m[0]))
+                seq += [epg.T(a, p), epg.E(4.0, 900.0, 70.0), sh, epg.ADC]
+            return seq
+        try:
+            P = np.array(pos) if dim > 1 else np.array(pos)[:, 0]
+            got = np.asarray(epg.simulate(build(True), kvalue=kv, kgrid=cell, prune=0, probe=epg.DFT(P)))
+            ref = np.asarray(epg.simulate(build(False), kvalue=cell, prune=0, probe=epg.DFT(P)))
+        except Exception as e:
+            ctx.report("gridded simulation with kvalue raised %s: %s" % (type(e).__name__, str(e)[:200]), {"kvalue_case": case}, found_input=True,
+                       signature={"raises": type(e).__name__, "site": "kvalue"})
+            continue
+        ctx.count(("kvalue", repr(case)))
+        ctx.cov["oracle_runs"] = ctx.cov.get("oracle_runs", 0) + 1
+        err = np.abs(got.reshape(ref.shape) - ref).max() if got.size == ref.size else np.inf
+        if not err < 1e-9:
+            ctx.report("wavenumbers that are multiples of the cell (%g rad/m, kvalue=%g): DFT(x) differs from the integer-shift back-end by %.3g although no two distinct wavenumbers share a cell"
+                       % (cell, kv, err), {"kvalue_case": case}, found_input=True, signature={"why": "merge-units", "site": "kvalue"})
 
 
 def run_sum_invariant_oracle(ctx, ncases):
@@ -335,6 +393,7 @@ def run(ctx):
     run_pruner_oracle(ctx, 15 if quick else 500)
     run_prune_oracle(ctx, 30 if quick else 600)
     run_merge_oracle(ctx, 12 if quick else 400)
+    run_kvalue_oracle(ctx, 12 if quick else 400)
     run_sum_invariant_oracle(ctx, 25 if quick else 800)
     ctx.cov["trusted_base"] += ["hand-written model Model/Ops.v tied to shift.py by exact correspondence of truncated programs",
                                 "n-D truncation, pruning, partials pruner and merging clauses: implementation-side oracle runs only (testing)"]
